@@ -86,8 +86,27 @@ def r132(ctx, rep):
     if len(ret) != 1 or not isinstance(ret[0].value, ast.Tuple) or len(ret[0].value.elts) != 4:
         raise AnalysisError("_get_model: single return of a 4-tuple expected")
     elts = [norm(e).replace(" ", "") for e in ret[0].value.elts]
-    want = ["x[npt,0]", "x[npt+1:,0]", "x[:npt,0]"]
-    if elts[:3] == want:
+
+    def row_col(e):
+        """X[r, c] or X[:, c][r] -> (X, r, c) as texts"""
+        if isinstance(e, ast.Subscript) and isinstance(e.slice, ast.Tuple) and len(e.slice.elts) == 2 and isinstance(e.value, ast.Name):
+            return e.value.id, norm(e.slice.elts[0]).replace(" ", ""), norm(e.slice.elts[1]).replace(" ", "")
+        if isinstance(e, ast.Subscript) and isinstance(e.value, ast.Subscript) and isinstance(e.value.slice, ast.Tuple) and len(e.value.slice.elts) == 2 \
+                and isinstance(e.value.value, ast.Name) and norm(e.value.slice.elts[0]).replace(" ", "") == ":":
+            return e.value.value.id, norm(e.slice).replace(" ", ""), norm(e.value.slice.elts[1]).replace(" ", "")
+        return None
+    rc = [row_col(e) for e in ret[0].value.elts[:3]]
+    sol_ok = False
+    if all(rc) and len({r[0] for r in rc}) == 1 and [r[1] for r in rc] == ["npt", "npt+1:", ":npt"] and {r[2] for r in rc} == {"0"}:
+        # the array must be the first result of the system solve, npt the number of points
+        base = rc[0][0]
+        for node in ast.walk(gm.node):
+            if isinstance(node, ast.Assign) and isinstance(node.value, ast.Call) and (dotted(node.value.func) or "").endswith("solve_systems"):
+                t0 = node.targets[0]
+                first = t0.elts[0] if isinstance(t0, (ast.Tuple, ast.List)) and t0.elts else None
+                if isinstance(first, ast.Name) and first.id == base:
+                    sol_ok = True
+    if sol_ok:
         rep.ok("R13.2", f"{gm.local}: (const, grad, i_hess) = (x[npt], x[npt+1:], x[:npt])")
     else:
         rep.bad("R13.2", "solution slices")
@@ -134,6 +153,35 @@ def r132(ctx, rep):
                 par = getattr(node, "_parent", None)
                 if isinstance(par, ast.Attribute) and par.attr == "T":
                     rhs_ok = True
+    rhs_seen_block = any(isinstance(node, ast.Call) and (dotted(node.func) or "").endswith("block") for node in ast.walk(gm.node))
+    if not rhs_ok and not rhs_seen_block:
+        # zeros((npt + n + 1, 1)) filled with  rhs[:npt, 0] = values
+        arg = None
+        for node in ast.walk(gm.node):
+            if isinstance(node, ast.Call) and (dotted(node.func) or "").endswith("solve_systems") and len(node.args) >= 2:
+                arg = node.args[1]
+        if not isinstance(arg, ast.Name):
+            raise AnalysisError("_get_model: the right-hand side passed to solve_systems has an unfamiliar shape")
+        allocs = [n_ for n_ in ast.walk(gm.node) if isinstance(n_, ast.Assign) and len(n_.targets) == 1 and isinstance(n_.targets[0], ast.Name) and n_.targets[0].id == arg.id]
+        stores = [n_ for n_ in ast.walk(gm.node) if isinstance(n_, (ast.Assign, ast.AugAssign)) and any(isinstance(t, ast.Subscript) and isinstance(t.value, ast.Name) and t.value.id == arg.id for t in (n_.targets if isinstance(n_, ast.Assign) else [n_.target]))]
+        if len(allocs) != 1 or not (isinstance(allocs[0].value, ast.Call) and (dotted(allocs[0].value.func) or "").split(".")[-1] == "zeros" and allocs[0].value.args):
+            raise AnalysisError("_get_model: the right-hand side passed to solve_systems has an unfamiliar shape")
+        shp = allocs[0].value.args[0]
+        rows = shp.elts[0] if isinstance(shp, ast.Tuple) and len(shp.elts) == 2 else None
+        addends = set()
+
+        def add(e):
+            if isinstance(e, ast.BinOp) and isinstance(e.op, ast.Add):
+                add(e.left)
+                add(e.right)
+            else:
+                addends.add(norm(e))
+        if rows is not None:
+            add(rows)
+        good = addends == {"npt", "n", "1"} and isinstance(shp.elts[1], ast.Constant) and shp.elts[1].value == 1
+        good = good and len(stores) == 1 and isinstance(stores[0], ast.Assign) and norm(stores[0].targets[0].slice).replace(" ", "") in (":npt,0", "(:npt,0)") \
+            and isinstance(stores[0].value, ast.Name) and stores[0].value.id == "values"
+        rhs_ok = good
     if rhs_ok:
         rep.ok("R13.2", f"{gm.local}: right-hand side = (values, 0_(n+1))^T")
     else:
